@@ -54,6 +54,8 @@ def call_function(algopy, fname, x, via, params):
         return np.power(x, params['n']) if False else x ** np.int64(params['n'])
     if fname == 'powf':
         return x ** float(Fraction(params['r']))
+    if fname == 'pownd0':
+        return x ** np.array(int(Fraction(params['r'])), dtype=params.get('dt', 'int64'))
     if fname == 'powr':
         return x ** params['rsym']
     if fname == 'rpow':
@@ -79,10 +81,11 @@ def h_unary(ctx, fname, D, P, shape, via='algopy', params=None, cplx=False, layo
             tag = 'p%d%s' % (p, ''.join('_%d' % j for j in i))
             # non-negative integer powers are polynomials: regular everywhere, x0 = 0 included
             dom = 'exp' if (fname in ('powi', 'powi_np') and params['n'] >= 0) else fname
-            if fname == 'powf' and Fraction(params['r']).denominator == 1:
-                # float-typed exponent with an integer value (x**2.0, x**-3.0): analytic for every
-                # non-zero base, negative ones included
-                dom = 'reciprocal'
+            if fname in ('powf', 'pownd0') and Fraction(params['r']).denominator == 1:
+                # float-typed exponent with an integer value (x**2.0, x**-3.0) or a 0-d array: analytic
+                # for every non-zero base, negative ones included; a polynomial (regular at x0 = 0
+                # too) when the value is non-negative
+                dom = 'reciprocal' if Fraction(params['r']) < 0 else 'exp'
             x0, ex = x0_for_complex(ctx, dom, tag) if cplx else x0_for(ctx, dom, tag)
             X[(0, p) + i] = x0
             info[(p,) + i] = ex
@@ -155,7 +158,9 @@ def derivs(ctx, fname, x0, K, params, ex):
         return lib.d_hyperu(ctx, x0, K, a=params['a'], b=params['b'])
     if fname in ('powi', 'powi_np'):
         return lib.d_powi(ctx, x0, K, n=params['n'])
-    if fname == 'powf':
+    if fname in ('powf', 'pownd0'):
+        if Fraction(params['r']).denominator == 1 and Fraction(params['r']) >= 0:
+            return lib.d_powi(ctx, x0, K, n=int(Fraction(params['r'])))
         return lib.d_powr(ctx, x0, K, r=Fraction(params['r']))
     if fname == 'powr':
         return lib.d_powr(ctx, x0, K, r=params['rsym'])
@@ -370,6 +375,10 @@ def units(tier, seed):
     for r in (['2', '3', '-2'] if tier == 'quick' else ['2', '3', '4', '-1', '-2', '-3']):
         add('pow_float(%s.0), integer-valued float exponent, base of either sign/D%d,P2' % (r, min(powD, 5)), 'h_unary', fname='powf',
             D=min(powD, 5), P=2, shape=(), params={'r': r})
+    for r, dt in (('2', 'int64'), ('3', 'uint8'), ('0', 'int64'), ('-2', 'int64')):
+        add('pow(0-d %s array %s)/D4,P2' % (dt, r), 'h_unary', fname='pownd0', D=4, P=2, shape=(), params={'r': r, 'dt': dt})
+    for r in ('0', '1'):
+        add('pow_float(%s.0), base of either sign or zero/D4,P2' % r, 'h_unary', fname='powf', D=4, P=2, shape=(), params={'r': r})
     # complex coefficients (where NumPy/SciPy support them and the oracle is rational in the atoms)
     cD, cP = (3, 1) if tier == 'quick' else (6, 2)
     for fname in ['exp', 'expm1', 'log', 'log1p', 'sqrt', 'sin', 'cos', 'sinh', 'cosh', 'reciprocal', 'square', 'tan', 'tanh']:
